@@ -33,7 +33,7 @@ RICH_FILTER = {"t": "And", "filters": [
 SWEEP_HOWS = {
     "len_edit": ["+1", "-1", "0", "huge", "long1", "long4", "leading0", "indef", "ff", "lol127"],
     "inner_len_edit": ["+1", "+5", "x2", "long4_big"],
-    "tag_edit": ["class", "number", "neighbour", "constructed", "hightag", "hightag_trunc", "zero"],
+    "tag_edit": ["class", "number", "neighbour", "constructed", "hightag", "hightag_trunc", "zero", "hightag1"],
 }
 
 
@@ -214,7 +214,7 @@ class C05(PropBase):
         x = st.x
         focus = w.init["focus"]
         tos = [n for n in ("c", "s") if self._eligible(st, n)]
-        if focus in ("random_blob", "insert_garbage", "deep_nest", "byz_message", "giant_pending") and not tos:
+        if focus in ("random_blob", "insert_garbage", "deep_nest", "byz_message", "giant_pending", "request_flood") and not tos:
             tos = ["c", "s"]
         if not tos:
             return None
@@ -287,6 +287,13 @@ class C05(PropBase):
                 # one unit that announces (and delivers) more pending bytes than common buffer limits: 64 KiB, 256 KiB, 16 MiB
                 f["announce"] = rng.choice([2 ** 31 - 1, 2 ** 28, 2 ** 25])
                 f["send"] = rng.choice([65536 + 9] * 4 + [262144 + 9] * 4 + [2 ** 24 - 9, 2 ** 24 + 9])
+            elif kind == "request_flood":
+                # a peer that pipelines more operations than any sensible server keeps open at once (never answered here)
+                if rng.random() < 0.8:
+                    return None  # keep this expensive kind rare
+                to = "s"
+                f["n"] = rng.choice([1001, 1025, 1100, 2049])
+                f["first"] = rng.choice([100000, 100000, 7])
             elif kind == "deep_nest":
                 f["depth"] = rng.choice([10, 50, 150, 300, 500, 1000, 2000, 5000])
                 f["shape"] = rng.choice(["not", "andor", "envelope"])
@@ -456,6 +463,14 @@ class C05(PropBase):
                     changed = (a, d)
             elif kind == "giant_pending":
                 g = b"\x30\x84" + int(f.get("announce", 2 ** 25)).to_bytes(4, "big") + b"\x02\x01\x01" + bytes(int(f.get("send", 65536)))
+                pos = x["appended"][to]
+                se.inbox.extend(g)
+                x["appended"][to] += len(g)
+                changed = (pos, pos + len(g))
+            elif kind == "request_flood":
+                first = int(f.get("first", 100000))
+                g = b"".join(rfc4511.enc_msg({"t": "ExtendedRequest", "id": first + i, "controls": [], "name": "1.1", "value": None})
+                             for i in range(int(f.get("n", 1001))))
                 pos = x["appended"][to]
                 se.inbox.extend(g)
                 x["appended"][to] += len(g)
@@ -651,6 +666,9 @@ class C05(PropBase):
                                 elif h == "neighbour":
                                     for dl in (-2, -1, 1, 2, 3):
                                         variants.append(dict(base, how=h, delta=dl))
+                                elif h == "hightag1":
+                                    for tn in (31, 36, 37, 38, 127):
+                                        variants.append(dict(base, how=h, val1=tn))
                                 else:
                                     variants.append(dict(base, how=h, val=rr.randrange(256)))
                         elif kind == "content_edit":
